@@ -245,6 +245,82 @@ def generate(run, thorough):
     return out
 
 
+CLI_KINDS = {"ok": None, "overrun": "1e999999999", "oom": "2^300000000", "big": "units for length"}
+
+
+def cli_leg(run, cases, thorough):
+    """Every TLC-generated fault sequence over {ok, overrun, oom, big} (length <= 3; all gaps 0) typed into the real rink
+    binary running its sandboxed REPL: one answer per line, in order, own result or an error naming what happened, and
+    every later request answered normally."""
+    import concurrent.futures as cf
+    import shutil
+    import subprocess
+    from engines import c20
+    c20.build_cli()
+    plans = sorted(set(tuple(c["plan"]) for c in cases if len(c["plan"]) <= 3 and all(k in CLI_KINDS for k in c["plan"])))
+    root = vlib.workfile("c18-cli")
+    shutil.rmtree(root, ignore_errors=True)
+
+    def one(item):
+        n, plan = item
+        d = os.path.join(root, "s%d" % n)
+        os.makedirs(os.path.join(d, "cfg", "rink"))
+        os.makedirs(os.path.join(d, "cwd"))
+        open(os.path.join(d, "cfg", "rink", "config.toml"), "w").write(
+            '[currency]\nenabled = false\n[limits]\nenabled = true\nshow_metrics = false\nmemory = "60MB"\ntimeout = "2500ms"\n')
+        lines = []
+        for i, k in enumerate(plan):
+            lines.append(CLI_KINDS[k] or "%d + %d" % (1000 + i, 7 * n + i))
+        lines.append("40 + 2")          # a final normal request after whatever happened
+        env = vlib.child_env({"XDG_CONFIG_HOME": os.path.join(d, "cfg"), "XDG_CACHE_HOME": os.path.join(d, "cache"),
+                              "XDG_DATA_HOME": os.path.join(d, "data"), "HOME": d})
+        try:
+            p = subprocess.run([c20.RINK], input="\n".join(lines) + "\nquit\n", cwd=os.path.join(d, "cwd"), env=env,
+                               stdout=subprocess.PIPE, stderr=subprocess.DEVNULL, text=True, timeout=120)
+            out = [ln for ln in p.stdout.splitlines() if ln.strip()]
+            rc = p.returncode
+        except subprocess.TimeoutExpired:
+            out, rc = ["<the REPL did not finish within 120 s>"], -9
+        return plan, lines, out, rc
+
+    with cf.ThreadPoolExecutor(max_workers=8) as ex:
+        results = list(ex.map(one, enumerate(plans)))
+    nbad = 0
+    for plan, lines, out, rc in results:
+        run.count()
+        if any(k != "ok" for k in plan):
+            run.nontrivial(("cli",) + plan)
+        want = []
+        for i, k in enumerate(plan):
+            if k == "ok":
+                a, b = lines[i].split(" + ")
+                want.append(("ok", "%d (dimensionless)" % (int(a) + int(b))))
+            elif k == "overrun":
+                want.append(("timeout", "Timed out"))
+            elif k == "oom":
+                want.append(("crashed", "Child process crashed"))
+            else:
+                want.append(("big", "Units for m (length)"))
+        want.append(("ok", "42 (dimensionless)"))
+        # one answer per request, in order: find each expected answer after the previous one
+        pos, okk = 0, True
+        for cls, needle in want:
+            hit = next((j for j in range(pos, len(out)) if needle in out[j]), None)
+            if hit is None:
+                okk = False
+                break
+            pos = hit + 1
+        if not okk or rc != 0:
+            nbad += 1
+            run.violation({"engine": "cli-sandbox", "plan": list(plan), "lines": lines, "rc": rc},
+                          {"answers_in_order": [w[1] for w in want]}, {"stdout": out[-12:]}, "cli-sandbox")
+    shutil.rmtree(root, ignore_errors=True)
+    run.note("cli_sequences", len(plans))
+    if plans:
+        run.sample({"leg": "E", "typed": results[len(results) // 2][1], "printed": results[len(results) // 2][2][-6:]})
+    log("[C18] E: %d fault sequences typed into the sandboxed rink REPL, %d with wrong answers" % (len(plans), nbad))
+
+
 def cleanup():
     import glob
     for f in glob.glob(os.path.join(vlib.WORK, "c18-%d-*" % os.getpid())):
@@ -345,6 +421,10 @@ def run_(tier, seed):
                     ndrift += 1
     if ndrift:
         run.drift_note("Sandbox", "%d reply pairs: same/different child pid disagrees with the transcription's respawn pattern" % ndrift)
+
+    # ---- E: the same fault sequences end to end through the real `rink` REPL with [limits] enabled
+    #      (cli/src/repl.rs + cli/src/service.rs: RinkService holds a mutex during handle; GLOBAL allocator limit)
+    cli_leg(run, cases, thorough)
 
     # ---- V: trace validation of the conforming runs
     if good:
